@@ -1,13 +1,14 @@
-\* thorough: two kernels (all variants of both), four layouts (high addresses, no .rodata), one unrelated symbol
+\* thorough: two kernels (all variants of both, all near misses), four layouts (addresses >= 2^32 with carries,
+\* no .rodata), one unrelated symbol in front, every order of up to 3 symbols
 SPECIFICATION Spec
 CONSTANTS
   Deviations = {}
   Kernels <- KMid
   Layouts <- LBig
-  Pads = {0, 4}
-  NoiseFront = {TRUE, FALSE}
+  Pads = {4}
+  NoiseFront = {TRUE}
   MaxKernels = 2
   MaxNoise = 1
-  MaxSwapLen = 4
+  MaxSwapLen = 3
 INVARIANTS TypeOK AlwaysWellFormed LoadIsTruth AutoDetect OthersRefused
 CHECK_DEADLOCK FALSE
